@@ -124,7 +124,14 @@ func learnMeta(w *world, bi *debug.BuildInfo, weekendsContent string) (base, met
 
 func genBuildInfo(t *simrt.Tape) *debug.BuildInfo {
 	bi := &debug.BuildInfo{GoVersion: "go1.23.1", Path: "example.com/prog", Main: debug.Module{Path: "example.com/prog", Version: "v1.2.3"}}
-	switch t.Biased(5, 1, 2) {
+	switch t.Biased(9, 1, 2) {
+	case 5, 6:
+		// a path that keeps the metadata clearly below the 512-byte cap: must be accepted
+		bi.Path = "example.com/" + strings.Repeat("q", 100+t.Draw(200)) + "/prog"
+	case 7:
+		bi.Main.Version = "(devel)" // the usual value for a local build
+	case 8:
+		bi.Main.Version = "v1.2.3+incompatible"
 	case 1:
 		bi.Path = "cmd/go" // toolchain program: version = Go version
 	case 2:
@@ -153,6 +160,7 @@ func scenarioC10(c *hlib.RunCtx) *hlib.Violation {
 	thorough := c.Flag("tier") == "thorough"
 	parseCheck := true
 
+	c.Note("nontrivial") // every run writes records that are decoded independently
 	bi := genBuildInfo(t)
 	wk := fmt.Sprintf("%d\n", t.Draw(7))
 	os.MkdirAll(w.local, 0777)
@@ -277,7 +285,8 @@ func scenarioC10(c *hlib.RunCtx) *hlib.Violation {
 		// Session ends: every process closes its mapping (restart).
 		for _, p := range procs {
 			if err := p.f.VerifErr(); err != nil {
-				if strings.Contains(err.Error(), "metadata too l") {
+				if strings.Contains(err.Error(), "metadata too l") && len(bi.Path) >= 330 {
+					// only a path that brings the metadata near or beyond the cap may be refused
 					c.Note("meta-too-long")
 					continue
 				}
